@@ -15,7 +15,7 @@ ID = 'C08'
 LEVEL = 'exploration'
 RUNS = {'quick': 40000, 'thorough': 800000}
 CHUNK = 100
-PROBES = ['timestamp_ties_inside_item', 'lookup_len_boundary', 'lookup_multi_chunk', 'lookup_none_fragment', 'gstr_multi_chunk', 'gstr_none_fragment',
+PROBES = ['unfinished_earlier_call_same_syscall', 'empty_path_vnode_zero', 'timestamp_ties_inside_item', 'lookup_len_boundary', 'lookup_multi_chunk', 'lookup_none_fragment', 'gstr_multi_chunk', 'gstr_none_fragment',
           'tname_two_records', 'interrupt_between_chunks', 'single_between_chunks', 'other_thread_between_chunks',
           'other_thread_half_lookup_between', 'window_more_lookups_than_paths', 'window_fewer_lookups_than_paths',
           'window_exact_lookups', 'two_path_syscall', 'multibyte_across_boundary', 'len_184', 'len_0']
@@ -77,6 +77,11 @@ def generate(rng, index, tier):
                 if rng.chance(0.3):
                     inner.append(_between(rng))
                 s, e = domains.draw(rng, name)
+                if rng.chance(0.12):
+                    # an earlier call of the same syscall on this thread whose END was lost (its records must not leak into this one)
+                    s0, e0 = domains.draw(rng, name)
+                    ops.append({'k': 'sys', 'name': name, 's': s0, 'e': e0, 'noend': True,
+                                'in': [worlds.op_lookup(rng) for _ in range(rng.randint(1, 2))]})
                 ops.append({'k': 'sys', 'name': name, 's': s, 'e': e, 'in': inner})
             elif r < 0.65:
                 lk = worlds.op_lookup(rng)
@@ -152,7 +157,7 @@ def execute(scn):
     # a window that lacks lookups the decoder shows is missing context: a raise there is C07's subject, not C08's
     short_windows = set()
     for o, op, _encl in _collect_items(scn['threads']):
-        if op['k'] == 'sys' and op['name'] in worlds.catalog()['path_names']:
+        if op['k'] == 'sys' and op['name'] in worlds.catalog()['path_names'] and not op.get('noend'):
             want = 4 if op['name'] == 'BSC_posix_spawn' else worlds.catalog()['path_names'][op['name']]
             if sum(1 for sub in op.get('in', []) if sub['k'] == 'lookup') < want:
                 short_windows.add(o + '/E')
@@ -231,6 +236,8 @@ def execute(scn):
                 bump('probe:len_184')
             if n == 0:
                 bump('probe:len_0')
+                if op['vnode'] == 0:
+                    bump('probe:empty_path_vnode_zero')
             if nchunks >= 2:
                 bump('probe:lookup_multi_chunk')
             if nchunks >= 3:
@@ -276,6 +283,11 @@ def execute(scn):
             if chunk_os[-1] in pos_of:
                 last_tname[(tid_of_thread[o.split('.')[0]], pos_of[chunk_os[-1]])] = op['text']
         elif k == 'sys' and op['name'] in worlds.catalog()['path_names']:
+            if op.get('noend'):
+                bump('probe:unfinished_earlier_call_same_syscall')
+                if by_first.get(o + '/S'):
+                    viols.append({'tag': 'trace-for-unfinished-call', 'sig': op['name'], 'detail': 'a call whose END never arrived produced %r' % [str(t) for t in by_first[o + '/S']]})
+                continue
             got = by_first.get(o + '/S', [])
             if o + '/E' in short_windows and not got:
                 continue
